@@ -405,6 +405,34 @@ namespace nmtools::view
         auto keepdims = False;
         auto e = view::sum(d,sum_axis,dtype,initial,keepdims);
 
+        // NOTE: the contracted extents must be pairwise equal, broadcasting in multiply would accept 1 against n
+        using result_t = decltype(e);
+        if constexpr (meta::is_maybe_v<result_t>) {
+            if (has_value(e)) {
+                const auto m_lhs_shape = unwrap(shape<true>(lhs));
+                const auto m_rhs_shape = unwrap(rhs_shape);
+                auto same_len = true;
+                if constexpr (meta::is_tuple_v<axes_t>) {
+                    const auto n_lhs_axes = unwrap(index::normalize_axis(lhs_axes,unwrap(lhs_dim)));
+                    const auto n_rhs_axes = unwrap(index::normalize_axis(rhs_axes,unwrap(rhs_dim)));
+                    if constexpr (!meta::is_constant_index_array_v<decltype(n_lhs_axes)> && !meta::is_constant_index_array_v<decltype(n_rhs_axes)>) {
+                        for (nm_size_t i=0; i<(nm_size_t)len(n_lhs_axes); i++) {
+                            same_len = same_len && ((nm_size_t)at(m_lhs_shape,at(n_lhs_axes,i)) == (nm_size_t)at(m_rhs_shape,at(n_rhs_axes,i)));
+                        }
+                    }
+                } else {
+                    auto n = (nm_size_t)axes;
+                    auto m_lhs_dim = (nm_size_t)len(m_lhs_shape);
+                    for (nm_size_t i=0; i<n; i++) {
+                        same_len = same_len && ((nm_size_t)at(m_lhs_shape,m_lhs_dim-n+i) == (nm_size_t)at(m_rhs_shape,i));
+                    }
+                }
+                if (!same_len) {
+                    return result_t{meta::Nothing};
+                }
+            }
+        }
+
         return e;
     } // tensordot
 } // nmtools::view
